@@ -5,7 +5,7 @@
      (fmt_decode STRICT #file TABLE)        -> (ok (LEAF ...) (RG ...)) | (bad why) | (uns why)
          LEAF = (#name TYPE TLEN MAXDEF (CONV)? (LOGICAL-MEMBER UNIT)?)   RG = (COLUMN ...)   COLUMN = (CELL ...)
          CELL = () NULL | xN numeric bit pattern | #bytes
-     TABLE = ((#compressed #uncompressed) ...) instantiates `decompress` (phase 2; trusted: cramjam)
+     TABLE = ((#KEY #uncompressed) ...), KEY = codec byte followed by the compressed bytes, instantiates `decompress` (phase 2; trusted: cramjam)
      STRICT = 1: a bit-packed run must be present in full; 0: only the bytes of the values needed. *)
 From Coq Require Import NArith ZArith List String Ascii Bool.
 From Pq Require Import Base.Bytes Base.ListX Extract.Sx Thrift.Compact Codec.Hybrid Format.Phys Format.Meta Format.Page Format.File Format.Enc.
@@ -14,7 +14,7 @@ Import ListNotations.
 Open Scope string_scope.
 
 Definition table_decompress (tbl : list (bytes * bytes)) (codec : Z) (usize : N) (b : bytes) : option bytes :=
-  match find (fun p => bytes_eqb (fst p) b) tbl with Some p => Some (snd p) | None => None end.
+  match find (fun p => bytes_eqb (fst p) (Z.to_N codec :: b)) tbl with Some p => Some (snd p) | None => None end.
 
 Definition as_table (s : sx) : option (list (bytes * bytes)) := Sx.as_list_of (as_pair as_bytes as_bytes) s.
 
@@ -66,7 +66,7 @@ Definition h_fmt_decode (a : list sx) : sx :=
 
 (* ---- spec encoder --------------------------------------------------------------------------------
      (fmt_payloads LFILE)        -> (ok ((CODEC #raw) ...))     payloads to compress (phase 1)
-     (fmt_encode LFILE TABLE)    -> (ok #file)                  TABLE = ((#raw #compressed) ...)
+     (fmt_encode LFILE TABLE)    -> (ok #file)                  TABLE = ((#KEY #compressed) ...), KEY = codec byte followed by the raw bytes
      (fmt_table LFILE)           -> (ok (LEAF ...) (RG ...)) | (none)     the table the layout denotes
    LFILE = ((LEAF ...) (RG ...) (#created_by)?)
      LEAF  = (#name TYPE TLEN OPTIONAL (CONV)? (LOGICAL)?)      LOGICAL = thrift value tree (Cmd_Thrift)
@@ -153,7 +153,7 @@ Definition as_lfile (s : sx) : option lfile :=
   end.
 
 Definition table_compress (tbl : list (bytes * bytes)) (codec : Z) (b : bytes) : bytes :=
-  match find (fun p => bytes_eqb (fst p) b) tbl with Some p => snd p | None => b end.
+  match find (fun p => bytes_eqb (fst p) (Z.to_N codec :: b)) tbl with Some p => snd p | None => b end.
 
 Definition h_fmt_payloads (a : list sx) : sx :=
   match a with
